@@ -23,7 +23,9 @@ fn any_finite() -> f32 {
 #[kani::proof_for_contract(Xorshift64::next_bits)]
 fn rand_next_bits_contract() {
     let mut g = Xorshift64(kani::any());
-    g.next_bits();
+    let r = g.next_bits();
+    // the postcondition again, explicitly: contracts are not checked under native replay
+    assert!(r != 0 && g.0 == r);
 }
 
 // @ob props=C19 tier=quick kind=P cfg=core-std timeout=120
@@ -33,7 +35,8 @@ fn rand_next_bits_contract() {
 #[kani::proof_for_contract(Xorshift64::from_seed)]
 fn rand_from_seed_contract() {
     let s: u64 = kani::any();
-    let _ = Xorshift64::from_seed(s);
+    let g = Xorshift64::from_seed(s);
+    assert!(g.0 == s); // explicit, for native replay
 }
 
 // @ob props=C19 tier=quick kind=P cfg=core-std timeout=120
